@@ -16,10 +16,15 @@
    block with version v is max{ j <= v : fp[j] <= b }.  H[v][n] \in {0,1}: block n in version v carries watched logs
    (the replay decorates: several logs, unwatched topics, other addresses, removed logs).
 
-   Defect switches (DESIGN section 6): AtomicRemove = FALSE is the code as written (F6: the range removal runs after the
+   Switches around finding F6 (repaired in /repo by "fix: reorgdetector keeps a subscriber's tracked blocks locked ..."):
+   the code as repaired is AtomicRemove = FALSE /\ LockedRemove = TRUE (the removal is a step of its own after the ack, the
+   tracked list is locked from the accepted notification until it is done); the code before the repair is LockedRemove =
+   FALSE (EVMSyncF6probe.cfg: RewindLow fails); RemoveByHash is a repair that TLC refutes (EVMSyncF6byhash.cfg).
+   Historical note - AtomicRemove = FALSE was the code as written (F6: the range removal runs after the
    driver was released; EVMSyncF6probe.cfg, RewindLow violated); RetryLimit is MaxRetryCountBlockHashMismatch (5 in the
    code; F7 needs RetryLimit+1 forks inside one range query; EVMSyncF7probe.cfg with RetryLimit = 0, Faithful violated).
-   The explored configurations use AtomicRemove = TRUE and fewer than RetryLimit+1 forks; both counterexamples are
+   The explored configurations model the repaired code and fewer than RetryLimit+1 forks; the F6 schedule (now a
+   regression behaviour: its "track before the removal" step must be refused by the lock) and the F7 counterexample are
    replayed on the real code by checks/C06.py.
 
    Configurations: EVMSyncC05*.cfg / EVMSyncC06*.cfg exhaustive; EVMSyncGen*.cfg edge-cover export (ACTION_CONSTRAINT Dump);
